@@ -101,6 +101,15 @@ def convert_table(ds):
     return out
 
 
+class ConvertError(Exception):
+    pass
+
+
+def convert_raises(data):
+    """convert= callable that fails: the originals must survive"""
+    raise ConvertError("conversion failed on purpose")
+
+
 USER_VARIANTS = {
     "bytes-args": (bytes_reader, bytes_writer),
     "bytes-plain": (bytes_reader_plain, bytes_writer_plain),
